@@ -56,7 +56,6 @@ KeepMon == UNCHANGED <<accM, accH>>
 Quiet(e, allowDeploy, allowUser) ==
   /\ Report("C07.EffectsOnlyAtEndBlock",
        /\ e.obs.live1 = o.live1 /\ e.obs.live2 = o.live2 /\ e.obs.active = o.active /\ e.obs.addr = o.addr
-       /\ e.obs.processed = o.processed
        /\ (e.obs.deploy # o.deploy => allowDeploy /\ Len(o.deploy) = 0 /\ Len(e.obs.deploy) = 1 /\ e.obs.deploy[1].status = "inflight" /\ ~e.obs.deploy[1].hasaddr)
        /\ (e.obs.user # o.user => allowUser /\ Len(e.obs.user) = Len(o.user) + 1 /\ e.obs.user[Len(e.obs.user)].status = "in_flight"
                                   /\ \A i \in DOMAIN o.user : e.obs.user[i] = o.user[i]))
@@ -128,9 +127,10 @@ TrEndBlock == IsEvent("EndBlock") /\ LET e == Trace[l]
        (\A q \in Q(o) : ~Good(q)) =>
           /\ n.live1 = o.live1 /\ n.live2 = o.live2 /\ n.active = o.active /\ n.addr = o.addr
           /\ ~upgraded /\ ~userUp /\ ~\E q \in newMsgs : q.kind = "handover")
-  \* what the code records as processed only grows, and covers every accepted transaction
-  /\ Report("C07.ProcessedRecorded", /\ SeqSet(o.processed) \subseteq SeqSet(n.processed)
-                                     /\ \A q \in acc : WinHid(q) \subseteq SeqSet(n.processed))
+  \* the store of processed transactions is the code's own book-keeping: drift only, the behaviour it must
+  \* guarantee (no second acceptance) is decided by C07.NoSecondUse on replayed transactions
+  /\ Conf("ProcessedRecorded", /\ SeqSet(o.processed) \subseteq SeqSet(n.processed)
+                               /\ \A q \in acc : WinHid(q) \subseteq SeqSet(n.processed))
   \* conformance with the shadow model
   /\ ConfD("EndBlock.res", e.res = res' /\ e.res = (IF e.errc = "" THEN "eb" ELSE e.errc), <<e.res, e.errc, res'>>)
   /\ ConfD("EndBlock.routed", [i \in DOMAIN e.routed |-> e.routed[i].id] = routed', <<e.routed, routed'>>)
